@@ -21,7 +21,20 @@ structure Defects where
   /-- float → 64-bit integer casts compare against `i64::MAX as f64` = 2^63 (resp. `u64::MAX as f64` = 2^64), so the
       value 2^63 (2^64) passes the range check and the saturating `as` turns it into `MAX` instead of an error. -/
   castSaturates : Bool := false
+  /-- `==` and `partial_cmp` of numeric values convert both sides with `as f64` first (types/macros/datatype.rs):
+      integers beyond 2^53 are rounded, so distinct integers compare equal. -/
+  numericViaF64 : Bool := false
+  /-- IEEE semantics for NaN: `NaN == NaN` is false and NaN is unordered against everything, although `DataType`
+      claims `Eq`. -/
+  nanUnordered : Bool := false
+  /-- `Hash` feeds the raw bits of the `f64`: `0.0 == -0.0` but their hashes differ. -/
+  hashRawBits : Bool := false
   deriving Repr, DecidableEq
+
+/-- everything the shipped code (commit 546821f) does wrong in this layer -/
+def Defects.asShipped : Defects :=
+  { blobLenOverflow := true, boolWriteWholeTail := true, castSaturates := true,
+    numericViaF64 := true, nanUnordered := true, hashRawBits := true }
 
 /-- Error classes of `SerializationError` / `TypeSystemError` that the value layer can produce. -/
 inductive Err
@@ -479,5 +492,109 @@ def tryCast (D : Defects) (v : Value) (k : Kind) : Except Err Value :=
   | .float b, .bool => .ok (.bool (f32.mag b != 0))
   | .double b, .bool => .ok (.bool (f64.mag b != 0))
   | _, _ => .error .badCast
+
+/-! ## Equality, ordering, hashing (types/macros/datatype.rs) -/
+
+/-- Exact value of a numeric datum on the extended real line, finite values in units of 2^-1074 (every finite
+    `f64` and `f32`, and every integer, is an integer multiple of 2^-1074, so nothing is rounded). -/
+inductive Ext
+  | negInf
+  | fin (z : Int)
+  | posInf
+  | nan
+  deriving Repr, DecidableEq
+
+def Ext.rank : Ext → Int
+  | .negInf => 0 | .fin _ => 1 | .posInf => 2 | .nan => 3
+
+/-- three-way comparison of integers -/
+def icmp (a b : Int) : Ordering := if a < b then .lt else if a = b then .eq else .gt
+
+/-- the total order of the specification: −∞ < finite values by size < +∞ < NaN, all NaNs equal -/
+def Ext.cmp : Ext → Ext → Ordering
+  | .fin a, .fin b => icmp a b
+  | a, b => icmp a.rank b.rank
+
+namespace FloatFmt
+variable (f : FloatFmt)
+/-- 2^scaleOff converts units of the format's smallest subnormal into units of 2^-1074 -/
+def scaleOff : Nat := 1075 - (f.bias + f.mbits)
+/-- |value| in units of 2^-1074 -/
+def scaledMag (bits : Nat) : Nat := f.sig bits * 2 ^ (max (f.expField bits) 1 - 1 + f.scaleOff)
+/-- exact value of a bit pattern -/
+def ext (bits : Nat) : Ext :=
+  if f.isNaN bits then .nan
+  else if f.isInf bits then (if f.isNeg bits then .negInf else .posInf)
+  else .fin (if f.isNeg bits then -(f.scaledMag bits : Int) else (f.scaledMag bits : Int))
+end FloatFmt
+
+/-- the integer 1 in units of 2^-1074 -/
+def unitScale : Nat := 2 ^ 1074
+
+/-- exact mathematical value of a numeric `DataType` -/
+def Value.ext : Value → Option Ext
+  | .int i | .bigint i => some (.fin (i * (unitScale : Int)))
+  | .uint n | .biguint n => some (.fin ((n : Int) * (unitScale : Int)))
+  | .float b => some (f32.ext b)
+  | .double b => some (f64.ext b)
+  | _ => none
+
+/-- sign-magnitude reading of an `f64` bit pattern: the key IEEE comparison sorts non-NaN values by (±0 ↦ 0) -/
+def f64Key (b : Nat) : Int := if f64.isNeg b then -(f64.mag b : Int) else (f64.mag b : Int)
+
+/-- `f64::partial_cmp` on bit patterns: unordered if either side is NaN, otherwise by sign and magnitude
+    (exponent field, then fraction) -/
+def ieeeCmp (a b : Nat) : Option Ordering :=
+  if f64.isNaN a || f64.isNaN b then none else some (icmp (f64Key a) (f64Key b))
+
+/-- comparison of two numeric values -/
+def numCmp (D : Defects) (a b : Value) : Option Ordering :=
+  let ext' (v : Value) : Option Ext := if D.numericViaF64 then v.toF64.map f64.ext else v.ext
+  match ext' a, ext' b with
+  | some x, some y =>
+    if D.nanUnordered ∧ (x = .nan ∨ y = .nan) then none else some (Ext.cmp x y)
+  | _, _ => none
+
+/-- 0 = NULL, 1 = bool, 2 = numeric, 3 = blob: values compare only within a class -/
+def Value.cls : Value → Nat
+  | .null => 0 | .bool _ => 1 | .blob _ => 3 | _ => 2
+
+/-- `PartialOrd for DataType` -/
+def partialCmp (D : Defects) : Value → Value → Option Ordering
+  | .null, _ | _, .null => none
+  | .bool a, .bool b => some (icmp (if a then 1 else 0) (if b then 1 else 0))
+  | .blob a, .blob b => some (Blob.cmp a b)
+  | a, b => if a.cls = 2 ∧ b.cls = 2 then numCmp D a b else none
+
+/-- `PartialEq for DataType` -/
+def eq (D : Defects) : Value → Value → Bool
+  | .null, .null => true
+  | .null, _ | _, .null => false
+  | .bool a, .bool b => a == b
+  | .blob a, .blob b => Blob.cmp a b == .eq
+  | a, b => if a.cls = 2 ∧ b.cls = 2 then numCmp D a b == some .eq else false
+
+/-- one representative per equality class of `f64`: +0.0 for both zeros, one quiet NaN for all NaNs -/
+def canonF64 (b : Nat) : Nat :=
+  if f64.isNaN b then 9221120237041090560 else if f64.mag b = 0 then 0 else b
+
+/-- the byte stream `Hash for DataType` feeds to the hasher -/
+def hashKey (D : Defects) : Value → Bytes
+  | .null => [0]
+  | .bool b => [1, if b then 1 else 0]
+  | .blob d => 3 :: (le64 (Blob.encode d).length ++ Blob.encode d)
+  | v => match v.toF64 with
+    | some b => 2 :: le64 (if D.hashRawBits then b else canonF64 b)
+    | none => []
+
+/-! ## ORDER BY (runtime/ops/sort.rs `compare_keys`, one key) -/
+
+/-- the comparator `Sort` hands to `sort_by` for an ascending key with NULLs first: unordered pairs count as equal -/
+def sortCmp (D : Defects) (a b : Value) : Ordering :=
+  match a, b with
+  | .null, .null => .eq
+  | .null, _ => .lt
+  | _, .null => .gt
+  | a, b => (partialCmp D a b).getD .eq
 
 end AxVerif.Value
